@@ -24,3 +24,6 @@ from gfapy.graph_operations import GraphOperations
 from gfapy.gfa import Gfa
 import gfapy.sequence
 import gfapy.field
+import os as _os
+if _os.environ.get("GFAPY_VERIF"):
+  from gfapy import _verif_trace
